@@ -286,6 +286,15 @@ def rule_d(ctx):
         t = norm(n)
         return "X" if t in (f"{RI}.img", "self.img", "self.copy().img") else ("S" if t == sc else None)
     verdict, why = None, ""
+    inplace = [s_ for s_ in stores if isinstance(s_, ast.AugAssign)]
+    if inplace:
+        # an in-place product keeps the dtype of the image's array: numpy neither promotes (uint8 * 300 wraps, or raises under the casting rules)
+        # nor accepts a float scalar for integer data -- the result differs from raw-array arithmetic img.img * scalar
+        ctx.ob(R, f.qname, "__mul__ multiplies the copy's data by the scalar, nothing else", False,
+               f"`{norm(inplace[0])[:70]}` works in place on the copy's array: the product keeps the array's dtype instead of the promoted type of `array * scalar` "
+               "(integer images wrap or raise for scalars that do not fit)", inplace[0], evidence=True)
+        stores = []
+        verdict = "reported"
     if len(stores) == 1:
         st = stores[0]
         e = expand(f.node, st.value)
@@ -321,7 +330,9 @@ def rule_d(ctx):
             inner = [c for c in ast.walk(e) if isinstance(c, ast.Call)]
             if inner and any(isinstance(b, ast.BinOp) and isinstance(b.op, ast.Mult) for b in ast.walk(e)):
                 verdict, why = False, f"`{norm(st)[:80]}`: the product is post-processed by `{norm(inner[0].func)}` (raw-array arithmetic does not do that: the dtype / values of the result differ from img.img * scalar)"
-    if verdict is None:
+    if verdict == "reported":
+        pass
+    elif verdict is None:
         ctx.ob(R, f.qname, "__mul__ multiplies the copy's data by the scalar, nothing else", False, "store into the copy's data not found", f.node)
     else:
         ctx.ob(R, f.qname, "__mul__ multiplies the copy's data by the scalar, nothing else", verdict, why, stores[0], evidence=True)
